@@ -67,6 +67,13 @@ func (pq *pqList) insert(id interface{}, expireAt time.Time) {
 	pq.mtx.RLock()
 	deadline := expireAt.Round(time.Second)
 	elt, ok := pq.buckets[deadline]
+	if ok {
+		// add to the bucket while still holding the read lock: once it is released Expire may pop the
+		// bucket, and an entry added to a popped bucket never expires
+		elt.put(id, expireAt)
+		pq.mtx.RUnlock()
+		return
+	}
 	pq.mtx.RUnlock()
 	if !ok {
 		pq.mtx.Lock()
